@@ -11,6 +11,29 @@ from .base import Check
 OP_PREFIXES = ("C ", "N ", "D ", "X ", "S ", "T ", "L", "Q ", "A ", "R ", "G")
 
 
+# Harmless rewrites of the anchored code the check was run against (mutated object files in a scratch copy of /repo,
+# full ./check flow, exit 0, no VIOLATION).  Patches: corpus/C07/negative_controls/*.diff (documentation, not applied here).
+NEGATIVE_CONTROLS = [
+    ("NC1", "IsReachable: host-hard-down test extracted into a helper and moved after the group loop, locals renamed"),
+    ("NC2", "different wording of the cycle error (only the words 'Dependency cycle' kept) and of all log messages"),
+    ("NC3", "iteration orders: GetDependenciesForChild/GetDependencyGroups reversed, cycle checker visits extra -> registered -> implicit edges, std::map for its nodes"),
+    ("NC4", "representation: ignore_soft_states stored inverted in the composite key, emptied groups stay in the registry until the next Unregister "
+            "(13k group/registry-size observations differ from the registry model: counted as `repr_differ`, never an alarm)"),
+    ("NC5", "IsAvailable as positive guards + switch, GetState with `!reachable`, `!=` and ternaries"),
+    ("NC6", "private members renamed (DependencyGroup::m_Members/m_Mutex, Service::m_Host), comments moved: the harness uses public API only"),
+]
+# Breaking changes the check is known to catch (corpus/C07/seeded_changes/*.diff), each with a concrete replay.
+SEEDED_CHANGES_CAUGHT = [
+    ("M1", "IsAvailable without the never-checked branch", "reachable_iff_*"),
+    ("M2", "redundancy group unreachable when `reachable < size`", "reachable_iff_*"),
+    ("M3", "cycle checker skips the implicit service->host edge", "cycle_is_rejected"),
+    ("M4", "host hard-down test also for check execution", "reachable_iff_check_execution"),
+    ("M5", "RemoveDependency keeps the removed dependency in the re-registered group", "implementation_aborted (VERIFY) / graph_equals_live_set"),
+    ("M6", "Unregister leaves the child's dependencies in the old group", "implementation_aborted / graph_equals_live_set"),
+    ("M7", "group key as plain String: parent name vs redundancy-group name collide", "reachable_iff_* (name collisions in the generators)"),
+]
+
+
 class C07(Check):
     prop = "C07"
     required_theorems = ["available_spec", "available_self", "group_state_spec", "reachable_spec",
@@ -367,7 +390,8 @@ class C07(Check):
                     tmp = self.work(f"corpus_{i}.out")
                     rc, err = self._harness_ops(harness, c, tmp)
                     if rc < 0:
-                        for case in self._split_cases(open(c).read().splitlines()):
+                        whole = [l for l in open(c).read().splitlines() if l.strip()]
+                        for case in self._split_cases(whole) + [whole]:   # one case alone, else the sequence of cases
                             if self._aborts(harness, case):
                                 self._abort_finding(res, harness, case, rc)
                                 return res
